@@ -185,6 +185,59 @@ pub fn run_case(ctx: &mut CaseCtx) -> CaseResult {
             }
         }
     }
+    // lists with several addressees (every pair of writers in both orders, and _Default with a
+    // module path from the grid): whoever gets the record, enabled() must not have said false
+    {
+        let mut lists: Vec<Vec<String>> = Vec::new();
+        for (i, a) in add.iter().enumerate() {
+            for (j, b) in add.iter().enumerate() {
+                if i != j {
+                    lists.push(vec![a.0.clone(), b.0.clone()]);
+                }
+            }
+            lists.push(vec![a.0.clone(), "_Default".into()]);
+            lists.push(vec!["_Default".into(), a.0.clone()]);
+        }
+        lists.push(vec!["_Default".into()]);
+        let modules: Vec<&String> = targets.iter().take(4).collect();
+        for list in &lists {
+            let target = format!("{{{}}}", list.join(","));
+            for module in &modules {
+                for lvl in spec::LEVELS {
+                    for (_, _, r) in &add {
+                        r.take();
+                    }
+                    sink.take();
+                    filter_sink.take();
+                    let meta = log::Metadata::builder().level(lvl).target(&target).build();
+                    let en = boxed.enabled(&meta);
+                    if lvl <= max {
+                        spec::with_rec(lvl, &target, Some(module.as_str()), "plain message", |rec| {
+                            boxed.log(rec);
+                        });
+                    }
+                    let written = add.iter().map(|(_, _, r)| r.take().len()).sum::<usize>()
+                        + sink.take().len()
+                        + filter_sink.take().len();
+                    res.count("multi_addressee_points", 1);
+                    if written > 0 && !en {
+                        res.violate(
+                            "enabled()-false-for-written-record",
+                            "C02/enabled()-false-for-written-record/several-addressees",
+                            format!(
+                                "target {target} module {module:?} level {lvl}: the record was written {written} time(s) but Log::enabled() answered false (writers {:?}, spec {:?})",
+                                add.iter().map(|a| format!("{}<={}", a.0, a.1)).collect::<Vec<_>>(),
+                                model.entries
+                            ),
+                        );
+                    }
+                }
+            }
+            if res.verdict != Verdict::Held {
+                break;
+            }
+        }
+    }
     drop(handle);
     drop(boxed);
     res.absorb_panics("C02", "spec grid");
